@@ -39,7 +39,16 @@ def bounds(tier, seed):
                 subset_sizes=[4, 5] if tier == "quick" else [4, 6])
 
 
+ROUTES = ["ctor", "set_params", "attribute", "clone"]
+
+
 def cases(tier, seed):
+    """Every case gets one of the four routes by which the parameters reach the estimator (rotating, offset by the seed)."""
+    for i, c in enumerate(_cases(tier, seed)):
+        yield dict(c, route=ROUTES[(i + seed) % 4])
+
+
+def _cases(tier, seed):
     ks = (4, 5) if tier == "quick" else (4, 5, 6)
     ms = (2, 3) if tier == "quick" else (2, 3, 4)
     nus = (-1.0, 0.0, 0.5) if tier == "quick" else (-1.0, -0.5, 0.0, 0.5, 1.0)
@@ -125,15 +134,35 @@ def run(case, rec):
     else:
         J = R.elastic_design(e, n, fe, fn, md, case["poisson"]); Jq = R.elastic_design(qe, qn, fe, fn, md, case["poisson"])
 
+    route = case.get("route", "ctor")
+
     def make(damping):
+        from sklearn.base import clone
+
         with warnings.catch_warnings():
             warnings.simplefilter("ignore")
-            if kind == "Trend":
-                return vd.Trend(case["degree"])
             fc = None if case.get("forces") is None else (fe.copy(), fn.copy())
-            if kind == "Spline":
-                return vd.Spline(mindist=md if md else None, damping=damping, force_coords=fc)
-            return vd.VectorSpline2D(poisson=case["poisson"], mindist=md, damping=damping, force_coords=fc)
+            if kind == "Trend":
+                cls, want, other = vd.Trend, dict(degree=case["degree"]), dict(degree=case["degree"] + 2 if case["degree"] < 2 else case["degree"] - 2)
+            elif kind == "Spline":
+                # (the constructor turns mindist=None into 0; set_params / attribute assignment get the number itself)
+                cls, want = vd.Spline, dict(mindist=(md if md else None) if route == "ctor" else md, damping=damping, force_coords=fc)
+                other = dict(mindist=3.0 * md + 0.5 * ext, damping=1.0 if damping is None else None, force_coords=None if fc is not None else (fe[:2] + 0.5 * ext, fn[:2]))
+            else:
+                cls, want = vd.VectorSpline2D, dict(poisson=case["poisson"], mindist=md, damping=damping, force_coords=fc)
+                other = dict(poisson=0.25 if case["poisson"] != 0.25 else 0.0, mindist=3.0 * md + 0.5 * ext, damping=1.0 if damping is None else None,
+                             force_coords=None if fc is not None else (fe[:2] + 0.5 * ext, fn[:2]))
+            if route == "ctor":
+                return cls(**want)
+            if route == "clone":
+                return clone(cls(**want))
+            est = cls(**other)
+            if route == "set_params":
+                est.set_params(**want)
+            else:
+                for k_, v_ in want.items():
+                    setattr(est, k_, v_)
+            return est
 
     dampings = [None] if kind == "Trend" else DAMP
     wkinds = ["none", "ramp"] if vector else ["none", "const", "ramp", "tiny"]
